@@ -122,6 +122,11 @@ package nsqd
 //@   ensures[members] result0 != nil && gm != result0 ==> (member(*pq, len(*pq), gm) <==> old(member(*pq, len(*pq), gm)))
 //@   ensures[others] result0 != nil && gm != result0 && !old(member(*pq, len(*pq), gm)) ==> gm.index == old(gm.index)
 //@   modifies *pq, elems(*pq), Message.index
+//   (area K) an entry is handed out only from a non-empty queue
+//@   ensures[was-non-empty] result0 != nil ==> old(len(*pq)) >= 1
+//   (area K) ghosts of the in-flight timeout scan, declared in zz_contracts_kchannel_verif.go
+//@   onreturn kIFShifts := kIFShifts + (result0 != nil ? 1 : 0)
+//@   onreturn kIFShifted := (result0 != nil ? result0 : kIFShifted)
 
 //@ func newInFlightPqueue(capacity int) inFlightPqueue
 //@   props C08 C02
